@@ -98,6 +98,8 @@ N('benign.eddsa-curve-by-key-length', [(P + 'ssh/key.py', "        if parser['ho
 B('C07.principals-ascii-only', ['C07'], [(P + 'ssh/key.py', "        parser.parse_string('value', 4, 'utf-8')", "        parser.parse_string('value', 4, 'ascii')")], mention='SshString')
 B('C07.ecdsa-point-by-library-helper', ['C07'], [(P + 'ssh/key.py', "        composer.compose_bytes(point_composer.composed_bytes, 4)\n", "        composer.compose_bytes(self.public_key.params.octet_bit_string, 4)\n")], mention='C07.R12')
 B('C07.ecdsa-coordinate-size-floored', ['C07'], [(P + 'ssh/key.py', "        coordinate_size = (named_group.value.size + 7) // 8", "        coordinate_size = named_group.value.size // 8")], mention='C07.R12')
+B('C14.infinite-fraction-accepted', ['C14'], [(P + 'common/field.py', "        if math.isnan(self.value) or math.isinf(self.value):", "        if math.isnan(self.value):")], mention='C14.R10')
+N('benign.finite-fraction-by-comparison', [(P + 'common/field.py', "        if math.isnan(self.value) or math.isinf(self.value):", "        if self.value != self.value or abs(self.value) == float('inf'):")])
 B('C02.unsupported-width', ['C02'], [(P + 'tls/extension.py', "        parser.parse_numeric('record_size_limit', 2)", "        parser.parse_numeric('record_size_limit', 5)")], props=['C02'])
 B('C02.raw-index', ['C02'], [(P + 'tls/extension.py', "        if parser['extension_data']:\n            raise InvalidValue(parser['extension_data'], cls)",
                              "        if parser['extension_data'][0]:\n            raise InvalidValue(parser['extension_data'], cls)")])
